@@ -1133,26 +1133,16 @@ fn gossip_loop_ops(ctx: &mut Ctx, ring: &HashRing, members: &[u64], spec: &Route
     let ring_arc = Arc::new(RwLock::new(ring.clone()));
     let outcome: Result<(), String> = rt.block_on(async {
         use tokio::io::AsyncReadExt;
+        // the listeners are NOT served while the loop runs: connect() completes through the accept
+        // backlog and the small frames sit in the socket buffers.  After the loop task is gone (its
+        // connections closed) every pending connection is accepted and read to EOF — no wall-clock
+        // grace period decides what "was received"
+        let mut listeners = Vec::new();
         let mut addrs = Vec::new();
-        for i in 0..n {
+        for _ in 0..n {
             let l = tokio::net::TcpListener::bind("127.0.0.1:0").await.map_err(|e| format!("bind: {}", e))?;
             addrs.push(l.local_addr().map_err(|e| format!("addr: {}", e))?.to_string());
-            let sink = received[i].clone();
-            tokio::spawn(async move {
-                loop {
-                    let (mut s, _) = match l.accept().await { Ok(x) => x, Err(_) => break };
-                    let sink = sink.clone();
-                    tokio::spawn(async move {
-                        loop {
-                            let mut len = [0u8; 4];
-                            if s.read_exact(&mut len).await.is_err() { break; }
-                            let mut buf = vec![0u8; u32::from_be_bytes(len) as usize];
-                            if s.read_exact(&mut buf).await.is_err() { break; }
-                            if let Ok(m) = GossipMessage::deserialize(&buf) { sink.lock().unwrap().push(m); }
-                        }
-                    });
-                }
-            });
+            listeners.push(l);
         }
         let mut cfg = ReplicationConfig::new_partitioned_cluster(me, addrs, ring.replication_factor());
         cfg.selective_gossip = spec.selective;
@@ -1180,10 +1170,38 @@ fn gossip_loop_ops(ctx: &mut Ctx, ring: &HashRing, members: &[u64], spec: &Route
             let handle = GossipActor::spawn_with_router(cfg.clone(), router);
             tokio::spawn(GossipManager::start_gossip_loop_with_actor(cfg.clone(), handle, collect))
         };
-        let done = tokio::time::timeout(std::time::Duration::from_secs(5), rx).await;
-        tokio::time::sleep(std::time::Duration::from_millis(15)).await; // the listeners drain their sockets
+        let done = tokio::time::timeout(std::time::Duration::from_secs(10), rx).await;
         task.abort();
-        match done { Ok(_) => Ok(()), Err(_) => Err("the loop did not come back for a second batch within 5 s".to_string()) }
+        let _ = task.await; // the loop's persistent connections are dropped here
+        if done.is_err() {
+            return Err("the loop did not come back for a second batch within 10 s".to_string());
+        }
+        for (i, l) in listeners.iter().enumerate() {
+            // a completed connect() is acceptable at once; the timeout only ends the scan
+            while let Ok(Ok((mut s, _))) = tokio::time::timeout(std::time::Duration::from_millis(20), l.accept()).await {
+                let mut buf = Vec::new();
+                match tokio::time::timeout(std::time::Duration::from_secs(5), s.read_to_end(&mut buf)).await {
+                    Ok(Ok(_)) => {}
+                    _ => return Err("a connection of the (aborted) loop did not reach EOF within 5 s".to_string()),
+                }
+                let mut pos = 0;
+                while pos + 4 <= buf.len() {
+                    let len = u32::from_be_bytes([buf[pos], buf[pos + 1], buf[pos + 2], buf[pos + 3]]) as usize;
+                    if pos + 4 + len > buf.len() {
+                        return Err("a truncated frame was received".to_string());
+                    }
+                    match GossipMessage::deserialize(&buf[pos + 4..pos + 4 + len]) {
+                        Ok(m) => received[i].lock().unwrap().push(m),
+                        Err(e) => return Err(format!("a frame does not deserialize: {}", e)),
+                    }
+                    pos += 4 + len;
+                }
+                if pos != buf.len() {
+                    return Err("trailing bytes after the last frame".to_string());
+                }
+            }
+        }
+        Ok(())
     });
     drop(rt);
     if let Err(e) = outcome {
@@ -1273,7 +1291,13 @@ fn gossip_loop_interval_probe(ctx: &mut Ctx) {
                 } else {
                     tokio::spawn(GossipManager::start_gossip_loop_with_actor(cfg.clone(), GossipActor::spawn(cfg.clone()), collect))
                 };
-                tokio::time::sleep(std::time::Duration::from_millis(20)).await;
+                // until the first tick or the end of the task (not a fixed wall-clock wait)
+                for _ in 0..5000 {
+                    if task.is_finished() || calls.load(Ordering::SeqCst) >= 1 {
+                        break;
+                    }
+                    tokio::time::sleep(std::time::Duration::from_millis(2)).await;
+                }
                 if task.is_finished() {
                     match task.await {
                         Err(e) if e.is_panic() => {
@@ -1342,7 +1366,7 @@ fn audit() -> serde_json::Value {
       {"class": 8, "topic": "node-global state", "covered": "the ring shared through Arc<RwLock<HashRing>>: changed AFTER the router was built, the next route must follow it; the connection pool of the loops (persistent connections) carries no routing state", "open": ""},
       {"class": 9, "topic": "observations", "covered": "ring checksum over (position, node, index), rf, node_count, version, physical order; ordered replica lists; address book; routing table per target IN BATCH ORDER and per delta identity; queue contents with kind, target, source, EPOCH; what each configured peer RECEIVES from a loop", "open": "float statistics"},
       {"class": 10, "topic": "finding signatures", "covered": "C19:gossip-loop:peer-map:off-by-one fires only when the outcome is what the loop's own arithmetic predicts and the correct arithmetic does not; any other starved owner is C19:gossip-loop:owner-starved (absorption audit: a loop that skips the LAST member is not absorbed)", "open": ""},
-      {"class": 11, "topic": "harness fragility", "covered": "a loop that does not come back within 5 s is C19:gossip-loop:harness; listeners on ephemeral loopback ports (no fixed port); source scan from the tree named by harness/Cargo.toml", "open": "the 15 ms grace after the second collect_deltas call is a wall-clock wait (data is already in the loopback buffers)"}
+      {"class": 11, "topic": "harness fragility", "covered": "a loop that does not come back within 10 s is C19:gossip-loop:harness; what a peer received is read to EOF from every pending connection AFTER the loop task is gone (no wall-clock grace period); listeners on ephemeral loopback ports (no fixed port); source scan from the tree named by harness/Cargo.toml", "open": ""}
     ])
 }
 
